@@ -74,6 +74,9 @@ WellFormed(ls) ==
         \E j \in 1..(i - 1) : IsBegin(ls[j]) /\ ls[j].tag = ls[i].tag
                                /\ \A m \in (j + 1)..(i - 1) : ls[m].k = "text"
   /\ \A i \in 1..Len(ls) : ls[i].k # "text" => ls[i].col > 0
+  \* a name is either a block or a scope of blocks, not both
+  /\ \A i, j \in 1..Len(ls) : (IsBegin(ls[i]) /\ IsBegin(ls[j]) /\ Len(ls[i].tag) < Len(ls[j].tag)) =>
+        SubSeq(ls[j].tag, 1, Len(ls[i].tag)) # ls[i].tag
 
 BlockBody(ls, i) ==      \* ids between the begin marker at i and its end marker
   LET j == CHOOSE j \in (i + 1)..Len(ls) : IsEnd(ls[j]) /\ \A m \in (i + 1)..(j - 1) : ~IsEnd(ls[m])
